@@ -5,8 +5,23 @@
    [part_count p] = 1 + the largest id of the input array (what both
    algorithms use as the number of parts); [gap] = heaviest - lightest load. *)
 From Coupe Require Import Lib.Prelude Model.NumPart Model.Vn
-  Proofs.NumPartLemmas Proofs.VnBestProofs Proofs.VnFirstProofs.
+  Proofs.NumPartLemmas Proofs.VnBestProofs Proofs.VnFirstProofs Gen.VnGen.
 Open Scope Z_scope.
+
+(* The guards and comparison operators of vn/best.rs and vn/first.rs that the
+   models hard-code, as the translator reads them from the current source
+   (Gen/VnGen.v): order of VnBest's guards (length, sign, trivial return, all
+   before the first write), `*weight < T::zero()`, the stop test
+   `imbalance <= nearest_weight || is_zero`, the move, the source part being the
+   heaviest one; VnFirst's `part_loads[p] < max_load`, `imbalance < new_imbalance`,
+   the roll-back, `p` read once per index (stale in the inner loop), the
+   `i_last = i` exit. *)
+Theorem C14_source_literals :
+  [vnbest_guards_in_order; vnbest_negative_test; vnbest_stop_when_not_below; vnbest_move;
+   vnbest_source_is_heaviest; vnfirst_skip_strict; vnfirst_reject_strict; vnfirst_rollback;
+   vnfirst_stale_p; vnfirst_stops_after_move]
+  = [true; true; true; true; true; true; true; true; true; true].
+Proof. exact eq_refl. Qed.
 
 (* ---------------- VnBest (flt = the weights are f64 holding integers) ---------------- *)
 
